@@ -1,17 +1,17 @@
 SPECIFICATION Spec
 CONSTANTS
   Obj = {1, 2, 3, 4}
-  MaxSteps = 7
+  MaxSteps = 5
   TlsRecurse = TRUE
   SweepCoop = TRUE
   Emit = FALSE
   ClearOnProcess = TRUE
-  Spawners = FALSE
+  Spawners = TRUE
   NestedSweep = FALSE
   TeardownLoop = TRUE
   Registers = FALSE
   FlushRegs = TRUE
-  Holders = FALSE
+  Holders = TRUE
   RootCountOnce = FALSE
   StopOps = FALSE
 VIEW view
